@@ -132,15 +132,43 @@ def expect_protein(mol, s, k, seed):
     return [murmur64(w, seed) for w in windows(reenc(mol, up(s)), k)]
 
 
+# the eight codon families whose amino acid does not depend on the third base (derived from the
+# standard code above, not from the code under test): the only place where an N can be translated
+FOURFOLD = {a + b for a in _B for b in _B if len({_STD[16 * _B.index(a) + 4 * _B.index(b) + l] for l in range(4)}) == 1}
+
+
+def ref_codon(c):
+    """residue of one upper-case codon by the statement: standard table; a codon with a letter that is
+    not A/C/G/T has no standard translation -> X, except xyN of a four-fold degenerate family"""
+    if is_acgt(c):
+        return STD_CODE[bytes(c)]
+    if c[2] == 78 and is_acgt(c[:2]) and bytes(c[:2]).decode() in FOURFOLD:
+        return STD_CODE[bytes(c[:2]) + b"A"]
+    return 88
+
+
+def rc_any(u):
+    """reverse complement of ANY upper-case byte string the way the documented complement does it:
+    A<->T, C<->G, N->N; a letter without a complement becomes a byte that is no letter (0)"""
+    return bytes({65: 84, 67: 71, 71: 67, 84: 65, 78: 78}.get(b, 0) for b in reversed(u))
+
+
+def translate_ref(strand, f):
+    return bytes(ref_codon(strand[i:i + 3]) for i in range(f, len(strand) - 2, 3))
+
+
 def six_frames(mol, s, k, seed):
-    """pure-ACGT DNA: hashes of all six frames as (frame, strand) -> list; also flat"""
+    """hashes of all six reading frames of an ASCII sequence (any letters), frame by frame"""
     u = up(s)
     out = []
     for f in range(3):
-        for strand in (u, rc(u)):
-            aa = bytes(STD_CODE[strand[i:i + 3]] for i in range(f, len(strand) - 2, 3))
-            out += [murmur64(w, seed) for w in windows(reenc(mol, aa), k)]
+        for strand in (u, rc_any(u)):
+            out += [murmur64(w, seed) for w in windows(reenc(mol, translate_ref(strand, f)), k)]
     return out
+
+
+def is_ascii(bs):
+    return all(b < 128 for b in bs)
 
 
 # --------------------------------------------------------------------------
@@ -246,6 +274,9 @@ def gen_case(rng, flavour):
         lines.append(f"s2h dna {k} {seed} 0 0 1 {mode} {H}")
     if mode == "str" and rng.random() < 0.3:
         lines.append(f"s2h {mol} {k} {seed} 1 0 {isprot} bytes {H}")
+    if not isprot and is_ascii(s):
+        # strand symmetry: the reverse complement (code's own complement table) must give the same multiset
+        lines.append(f"s2h {mol} {k} {seed} 1 0 0 bytes {hx(mixcase(rng, rc_any(up(s)), 0.2))}")
     # kmers_and_hashes (ASCII only)
     if all(b < 128 for b in s):
         lines.append(f"kah {mol} {k} {seed} 0 {isprot} {H}")
@@ -307,8 +338,8 @@ def _expect_add(mol, k, seed, force, rec, isprot):
         if st == "err":
             return "err", None
         return "ok", _ms(h for h in hs if h is not None)
-    if not is_acgt(up(rec)):
-        return "unspecified", None          # ambiguity codes in translation: the statement is silent
+    if not is_ascii(rec):
+        return "unspecified", None          # non-UTF-8 / non-ASCII bytes in a codon: panic domain, not judged
     if len(rec) < 3 * k:
         return "ok", {}
     return "ok", _ms(six_frames(mol, rec, k, seed))
@@ -365,8 +396,8 @@ def check_op(line, out):
                 if got != exp:
                     return _s2h_sig(line, mode, s, got, flat, out)
                 return None
-            # translated DNA
-            if not is_acgt(up(s)):
+            # translated DNA (any ASCII letters: codons without a standard translation are X)
+            if not is_ascii(s):
                 return None
             exp = six_frames(mol, s, k, seed) if len(s) >= 3 * k else []
             if got is None:
@@ -392,8 +423,8 @@ def check_op(line, out):
             if k < 1:
                 return None
             translate = mol != "dna" and not isprot
-            if translate and not is_acgt(s):
-                return None
+            if translate and not all(b in b"ACGTN" for b in s):
+                return None              # screed.rc refuses other letters (AssertionError): not judged
             if isprot and 0 in expect_protein(mol, s, k, seed):
                 exp = list(zip(windows(s, k), expect_protein(mol, s, k, seed)))
                 ok_view = None
@@ -422,12 +453,12 @@ def check_op(line, out):
             if translate:
                 exp_kmers = []
                 for f in range(3):
-                    for strand in (s, rc(s)):
+                    for strand in (s, rc_any(s)):
                         exp_kmers += [strand[i:i + 3 * k] for i in range(f, len(strand) - 3 * k + 1, 3)]
                 if sorted(km for km, _ in pairs) != sorted(exp_kmers):
                     return "C02:kmers_and_hashes:translate-kmers", f"`{line}`: k-mers are not the six-frame windows"
                 for km, h in pairs:
-                    aa = bytes(STD_CODE[km[i:i + 3]] for i in range(0, len(km), 3))
+                    aa = translate_ref(km, 0)
                     if h != murmur64(reenc(mol, aa), seed):
                         return "C02:kmers_and_hashes:translate-pair", f"`{line}`: k-mer {km!r} paired with {h}"
                 return None
@@ -544,6 +575,23 @@ def oracle(case, impl):
             if related and out != out2:
                 bad.append((max(i, j), "C02:relation:" + related.split()[0],
                             f"`{case[i]}` and `{case[j]}` ({related}) give different sketches"))
+    # strand symmetry through seq_to_hashes(force=True): s and its reverse complement (any ASCII letters)
+    s2 = []
+    for i, (line, out) in enumerate(zip(case, impl)):
+        w = line.split()
+        if len(w) == 9 and w[0] == "s2h" and w[4:7] == ["1", "0", "0"] and out.startswith("ok"):
+            s2.append((i, w, sorted(int(x) for x in out[3:].split(",") if x)))
+    for i, w, hs in s2:
+        a = unhx(w[8])
+        if not is_ascii(a):
+            continue
+        for j, w2, hs2 in s2:
+            if j <= i or w2[1:4] != w[1:4]:
+                continue
+            b = unhx(w2[8])
+            if up(b) == rc_any(up(a)) and hs != hs2:
+                bad.append((j, "C02:relation:strand-symmetry",
+                            f"`{case[i]}` and its reverse complement `{case[j]}` give different multisets of hashes"))
     return bad
 
 
